@@ -198,10 +198,9 @@ theorem read_failure_queues (s : St) (i : Id) (c : ClientS) (hc : s.clients i = 
   split <;> simp_all
 
 theorem write_failure_queues (s : St) (i : Id) (c : ClientS) (n : Nat) (o : Outcome) (hc : s.clients i = some c)
-    (h0 : c.backlog = 0) (he : sendOn c n o = .error) : i ∈ (write s i n o).closing := by
+    (h0 : c.backlog = 0) (he : sendOn c n o = .error ∨ sendOn c n o = .sent 0) : i ∈ (write s i n o).closing := by
   unfold write addClosing
-  simp only [hc, h0, he, if_true]
-  split <;> simp_all
+  rcases he with he | he <;> simp only [hc, h0, he, if_true] <;> split <;> simp_all
 
 theorem writeReady_failure (s : St) (i : Id) (c : ClientS) (o : Outcome) (hc : s.clients i = some c)
     (hcb : c.hasCb = true) (hb : c.backlog ≠ 0) (he : sendOn c c.backlog o = .error) :
